@@ -811,9 +811,17 @@ fn groups() -> Vec<Group> {
         name: "changelog",
         tags: vec![t(T::RPMTAG_CHANGELOGNAME), t(T::RPMTAG_CHANGELOGTIME), t(T::RPMTAG_CHANGELOGTEXT)],
         accessors: vec!["get_changelog_entries"],
-        extra: [255usize, 256, 257]
+        extra: [0usize, 255, 256, 257]
             .iter()
             .map(|n| {
+                if *n == 0 {
+                    // entries that repeat their neighbour verbatim, and entries that differ from it in one member only
+                    return Dev::Multi(vec![
+                        Dev::Set(t(T::RPMTAG_CHANGELOGNAME), Val::strs(&["A <a@x>", "B <b@x>", "B <b@x>", "B <b@x>", "C <c@x>", "C <c@x>"])),
+                        Dev::Set(t(T::RPMTAG_CHANGELOGTIME), Val::Int32(vec![5, 4, 4, 4, 3, 3])),
+                        Dev::Set(t(T::RPMTAG_CHANGELOGTEXT), Val::strs(&["- a", "- b", "- b", "- other", "- c", "- c"])),
+                    ]);
+                }
                 Dev::Multi(vec![
                     Dev::Set(t(T::RPMTAG_CHANGELOGNAME), Val::StrArray((0..*n).map(|k| format!("N{} <n@x>", k).into_bytes()).collect())),
                     Dev::Set(t(T::RPMTAG_CHANGELOGTIME), Val::Int32((0..*n as u32).map(|k| 1_000_000_000 + k).collect())),
